@@ -53,7 +53,7 @@ KINDS = [
     # the server itself fails to read the document (I/O error), and THEN the client goes away during the error reply
     ("ioerr-gopher", "gopher", b"/ioerr.txt"), ("ioerr-gopherp", "gopherp", b"/ioerr.txt"), ("ioerr-http", "http", b"/ioerr.txt"), ("ioerr-wap", "wap", b"/ioerr.txt"),
     ("ioerr-gemini", "gemini", b"/ioerr.txt"), ("ioerr-spartan", "spartan", b"/ioerr.txt"),
-    ("gz-doc", "http", b"/c.txt.gz"), ("script", "gopher", b"/s.sh"), ("pyg", "gemini", b"/p.pyg"), ("icon", "http", b"/PYGOPHERD-HTTPPROTO-ICONS/text.gif"),
+    ("gz-doc", "http", b"/c.txt.gz"), ("gz-big-https", "https", b"/bigc.txt.gz"), ("gz-big-sgopher", "sgopher", b"/bigc.txt.gz"), ("gz-big-gemini", "gemini", b"/bigc.txt.gz"), ("gz-big-gopherp", "gopherp", b"/bigc.txt.gz"), ("script", "gopher", b"/s.sh"), ("pyg", "gemini", b"/p.pyg"), ("icon", "http", b"/PYGOPHERD-HTTPPROTO-ICONS/text.gif"),
 ]
 
 
@@ -78,6 +78,18 @@ def _patch_ioerr():
     _io_patched = True
 
 
+def _children():
+    """Child processes of this process that are still around (running or not reaped)."""
+    out = set()
+    try:
+        for t in os.listdir("/proc/self/task"):
+            with open("/proc/self/task/%s/children" % t) as f:
+                out.update(int(x) for x in f.read().split())
+    except OSError:
+        pass
+    return out
+
+
 def _fds():
     out = {}
     for n in os.listdir("/proc/self/fd"):
@@ -97,6 +109,7 @@ def _world():
         spec = worlds.standard_spec(full=True)
         spec["big.txt"] = (b"0123456789abcdef" * 64 + b"\n") * 9  # > 2 copy blocks
         spec["huge.bin"] = bytes(range(256)) * 800  # 200 KiB
+        spec["bigc.txt.gz"] = worlds.gz(b"a line of the big compressed document\n" * 6000)  # > any pipe buffer once decompressed
         spec["hz.zip"] = worlds.make_zip([("huge.bin", bytes(range(256)) * 600), ("small.txt", b"s\n")])
         spec[b"caf\xe9.txt"] = b"latin-1 name\n" * 400
         spec[b"d\xe9r"] = {b"in\xe9.txt": b"x\n", b"plain.txt": b"y\n"}
@@ -113,6 +126,7 @@ def _probe(kind, proto, sel, k, errname, once=False):
     data, tls = rig.request(proto, sel)
     gc.collect()
     before = _fds()
+    kids_before = _children()
     r = w.serve(data, tls, fail_at=k, fail_exc=ERRORS[errname], fail_once=once)
     # drop the harness's own references to the request's objects (the recorded
     # protocol object, exception tracebacks) before looking for leaks
@@ -140,6 +154,20 @@ def _probe(kind, proto, sel, k, errname, once=False):
         others = [c for a, c in classes if c != own and not (c == "FileNotFound" and is_error_kind) and not (c == "OSError" and kind.startswith("ioerr-"))]
         if others:
             bad.append(("other-class", "failure logged as %r instead of %s: %r" % (sorted(set(others)), own, exc_records[:4])))
+    kids = _children() - kids_before
+    if kids:
+        import time
+
+        time.sleep(0.2)  # a child that is just exiting
+        kids = _children() - kids_before
+    if kids:
+        bad.append(("child-left", "child processes started for the request are still there after it ended: %r" % sorted(kids)))
+        for pid in kids:
+            try:
+                os.kill(pid, 9)
+                os.waitpid(pid, 0)
+            except OSError:
+                pass
     leaked = {fd: p for fd, p in after.items() if fd not in before}
     if leaked:
         bad.append(("fd-leak", "descriptors still open after the connection was torn down: %r" % (leaked,)))
